@@ -31,7 +31,8 @@ pub fn get(target: &str) -> Vec<u8> {
 }
 
 pub fn buffer_sizes() -> &'static [i64] {
-    &[64, 256, 1024, 4096, 10000, 10000, 10000, 12000, 16000, 32768, 65536]
+    // (4000 and 1024 are constants of the code under test: upload chunk arithmetic, buffer minimum)
+    &[64, 256, 1023, 1024, 1025, 3999, 4000, 4001, 4096, 8192, 9999, 10000, 10000, 10000, 10001, 12000, 16000, 32768, 65536]
 }
 
 pub fn pick_buffer(rng: &mut Rng) -> i64 {
@@ -246,13 +247,21 @@ pub fn tree_paths(rng: &mut Rng, tree: &TreeSpec) -> Vec<(String, &'static str)>
     let n = out.len();
     for i in 0..n {
         let (p, _) = out[i].clone();
-        match rng.below(9) {
+        match rng.below(10) {
             0 => out.push((format!("{}?x=1&y=2", p), "with_query")),
             1 => out.push((format!("{}#frag", p), "with_fragment")),
             2 => out.push((format!("{}?q=a%20b#top", p), "with_query_and_fragment")),
             3 => out.push((p.replacen('/', "//", 1), "doubled_slash")),
             4 => out.push((format!("/.{}", p), "dot_segment")),
             // ".." as a whole segment, but inside the query or fragment: not part of the path
+            6 => {
+                // a long query or fragment of multi-byte characters: the target passes every length
+                // around 255 / 256 / 257 ... bytes with a character boundary at every phase
+                let n = *rng.pick(&[100usize, 200, 240, 250, 255, 256, 257, 260, 300, 500, 1000]) + rng.below(4);
+                let n = n.saturating_sub(p.len()).max(8);
+                let ph = rng.below(n);
+                out.push((format!("{}{}{}", p, if rng.chance(2, 3) { "?note=" } else { "#" }, super::real::utf8_of_len(rng, n, ph)), "with_long_utf8_query"));
+            }
             5 => out.push((format!("{}{}", p, rng.pick(&["?return=/shop/../cart", "?dir=/docs/..", "#/../x", "?next=..", "?a=1&back=../", "?p=/..", "#..", "?q=x/../../y#z"])), "with_query_dotdot")),
             _ => {}
         }
@@ -397,7 +406,16 @@ pub fn mutated_request(rng: &mut Rng, base_target: &str, buf: usize) -> (&'stati
             }
             ("non_utf8_head", v)
         }
-        13 => ("target_long", format!("GET /{} HTTP/1.1\r\nHost: h\r\n\r\n", "a".repeat(rng.range(200, buf.max(201) * 2))).into_bytes()),
+        13 => {
+            if rng.chance(1, 2) {
+                ("target_long", format!("GET /{} HTTP/1.1\r\nHost: h\r\n\r\n", "a".repeat(rng.range(200, buf.max(201) * 2))).into_bytes())
+            } else {
+                let n = *rng.pick(&[120usize, 250, 254, 255, 256, 257, 258, 300, 511, 512, 513, 1000, 1023, 1024, 1025, 2000]);
+                let ph = rng.below(n);
+                let tail = super::real::utf8_of_len(rng, n, ph);
+                ("target_long_utf8", format!("GET {}{}{} HTTP/1.1\r\nHost: h\r\n\r\n", t, rng.pick(&["?q=", "#", "/", "x"]), tail).into_bytes())
+            }
+        }
         14 => ("target_odd", format!("GET {} HTTP/1.1\r\nHost: h\r\n\r\n", rng.pick(&["//a//b", "/%zz", "/?", "/#", "/%", "/a?%", "?x", "#", "/..", "/.", "/:80", "/a b", "/\\..\\x", ":99999999999/", "@x/../../out.txt"])).into_bytes()),
         15 => {
             let ver = *rng.pick(&["HTTP/9.9", "http/1.1", "HtTp/1.1", "HTTP/1.0", "HTTP/2.0", "HTTP/0.9", "http/1.0", "HTTP/3.0", "HTTP/1.2"]);
